@@ -538,7 +538,11 @@ impl Locale {
         key: &'a Key,
         value: &ParsedValue,
     ) -> Option<(&'a str, PluralRuleType, PluralForm)> {
-        if matches!(value, ParsedValue::Ranges(_) | ParsedValue::Subkeys(_)) {
+        // an explicit default (`null`) is not a plural form, there is nothing to render for it.
+        if matches!(
+            value,
+            ParsedValue::Ranges(_) | ParsedValue::Subkeys(_) | ParsedValue::Default
+        ) {
             return None;
         }
         let (base_key, suffix) = key.name.rsplit_once('_')?;
